@@ -103,6 +103,9 @@ class HandoverClient(object):
                 list(ndef.message_decoder(octets, 'strict', {}))
                 log.debug("<<< %s", binascii.hexlify(octets).decode())
                 return bytes(octets)
+            except UnicodeError as error:
+                log.error(repr(error))
+                return b''  # this will never be an ndef message
             except ndef.DecodeError:
                 log.debug("message is incomplete (%d byte)", len(octets))
                 if timeout:
